@@ -25,7 +25,8 @@ def split5(rng, data, cuts=None):
 def generate(rng, tier):
     cs = []
     n, maxlen = (600, 4096) if tier == "quick" else (8000, 65536)
-    lens = [0, 1, 63, 64, 65, 127, 128, 129] + [rng.randint(0, 200) for _ in range(n // 2)] + [rng.randint(0, maxlen) for _ in range(n // 4)]
+    # totals at the powers of two where a narrower counter, a block buffer or a window size would wrap (each with both neighbours)
+    lens = [0, 1, 63, 64, 65, 127, 128, 129, 255, 256, 257, 511, 512, 513, 1023, 1024, 1025, 4095, 4096, 4097, 65535, 65536, 65537, 131072] + [rng.randint(0, 200) for _ in range(n // 2)] + [rng.randint(0, maxlen) for _ in range(n // 4)]
     if tier == "thorough": lens += [1 << 20, (1 << 20) + 1]
     def special(n):
         r = rng.random()
